@@ -40,6 +40,7 @@ def run(ctx):
     ctx.rule("R4", "error-after-mutation: no Err exit reachable from a mutation point (bottom-up summaries over the apply path and the transaction layer)")
     ctx.rule("R4-prevalidate", "the fallible patch-log migration dominates every mutation in apply_changes_batch_log_patches")
     f = ctx.facts()
+    check_spans_typecheck(ctx, f)
     table = ctx.table("eam.tsv")
     # ---- apply path
     fns = apply_scope(f)
@@ -89,3 +90,30 @@ def run(ctx):
     n2 = C03.report(ctx, f, tf, TE, inscope, table)
     ctx.note("own pairs examined: apply path %d, transaction layer %d" % (n, n2))
     ctx.floor("own (mutation, error) pairs examined", n + n2, 8)
+
+
+def check_spans_typecheck(ctx, f):
+    """R4-typecheck: update_spans rejects a non-text object before its first edit"""
+    ctx.rule("R4-typecheck", "text_diff::myers_block_diff: every call that edits through the transaction (the diff run, update_block, splice) is edge-dominated by the `object is a Text` test; the other edge returns InvalidOp")
+    P = [p for p in f.fns if norm_fn(p) == "automerge::text_diff::myers_block_diff"]
+    if len(P) != 1:
+        raise facts.AnchorMissing("text_diff::myers_block_diff")
+    b = cfg.body(f.fns[P[0]])
+    ctx.analysed_fns.add(P[0])
+    is_text = []
+    for sb, sw in b.switches():
+        src = b.bool_operand_source(sw["op"])
+        zero = [tb for v, tb in sw["targets"] if v == "0"]
+        if src and src["kind"] == "call" and (norm_fn(src["callee"]) or "").split("::")[-1] in ("ne", "eq") and any("ObjType" in ty for ty in src["t"].get("argtys", [])):
+            ne = (norm_fn(src["callee"]) or "").split("::")[-1] == "ne"
+            neg = src["negated"] != ne          # True: the `otherwise` edge means "not text"
+            is_text += ([(sb, zero[0])] if zero else []) if neg else [(sb, sw["otherwise"])]
+        elif src and src["kind"] == "discr" and "ObjType" in (src.get("ty") or ""):
+            is_text += [(sb, tb) for v, tb in sw["targets"] if (src["vars"] or {}).get(v) == "Text"]
+    edits = [(bi, t) for bi, t in b.calls() if (callee(t) or "").startswith("automerge::text_diff::myers::diff") or (callee(t) or "").startswith("automerge::transaction::inner::TransactionInner::")
+             or (callee(t) or "").endswith("text_diff::spans_as_grapheme")]
+    ctx.floor("reads / edits in myers_block_diff", len(edits), 2)
+    for k, (bi, t) in util.ordinal_keys(edits, lambda it: "myers_block_diff|%s" % (callee(it[1]) or "").split("::")[-1]):
+        ok = any(b.edges_dominate([e], bi) for e in is_text)
+        ctx.ob("R4-typecheck", k, ok, t["sp"], "only on a text object" if ok else
+               "update_spans starts reading / editing before the object type is known to be Text: on a list its maps are taken for block markers and rewritten, and the error that follows leaves those edits in the transaction")
